@@ -51,8 +51,24 @@ def perform_action_call(e):
     return None
 
 
+THOROUGH_CONFIGS = ["parse-none", "parse-core", "parse-core-utf8"]
+
+
 def run(ctx):
     rep, facts = ctx.report, ctx.facts
+    if ctx.tier == "thorough":
+        # the same rules on the parser's three other feature sets (real builds, type-checked by the compiler)
+        for cfg in THOROUGH_CONFIGS:
+            if cfg in ctx.configs:
+                run_rules(ctx.configs[cfg], rep.scoped(cfg))
+    run_rules(facts, rep)
+    for r, n in (("table", 16), ("encoding", 10), ("unpack", 3), ("lookup", 4), ("advance", 3), ("order", 7),
+                 ("action-map", 16), ("guards", 9), ("reset", 9), ("limits", 7), ("params", 8), ("utf8", 3),
+                 ("osc", 4)):
+        rep.floor(r, n)
+
+
+def run_rules(facts, rep):
 
     rep.guarded("encoding", "State/Action", lambda: cp.check_encoding(facts, rep))
     rep.guarded("table", "STATE_CHANGES", lambda: cp.check_table(facts, rep))
@@ -67,10 +83,6 @@ def run(ctx):
     rep.guarded("params", "Params", lambda: rule_params(facts, rep))
     rep.guarded("utf8", "process_utf8", lambda: rule_utf8(facts, rep))
     rep.guarded("osc", "osc_dispatch", lambda: rule_osc_dispatch(facts, rep))
-    for r, n in (("table", 16), ("encoding", 10), ("unpack", 3), ("lookup", 4), ("advance", 3), ("order", 7),
-                 ("action-map", 16), ("guards", 9), ("reset", 9), ("limits", 7), ("params", 8), ("utf8", 3),
-                 ("osc", 4)):
-        rep.floor(r, n)
 
 
 def rule_unpack(facts, rep):
